@@ -9,7 +9,10 @@ Case JSON (self-contained):
    "topup":  bool   every group's cache holds every object under the group's prefixes
                     (false: only the cache the mapping designates for the key, as index.save does)
    "fails":  [["r0", "f1"], ...]                    uploads that raise in the first push
-   "ffails": [["n0", "f1"], ...]                    uploads that raise in the first fetch (optional)}
+   "ffails": [["n0", "f1"], ...]                    uploads that raise in the first fetch (optional)
+   "eacces": bool                                   injected failures are PermissionError (else EIO)
+   "tmp":    ["c0", "r1"]                           stores configured with a tmp_dir (optional): a remote
+                    with one keeps a real persistent ObjectDBIndex; on a cache it must have no effect}
 Rounds: push(fails), push (clean retry), [fetch(ffails)], fetch (clean) into fresh caches n<i>
 (one per cache c<i>), index checkout through the fetch map.
 """
@@ -35,7 +38,9 @@ RULE = (
     "checkout. A case is non-trivial when at least two objects move and (a fault fires or >= 2 stores receive)."
 )
 ASSUMPTIONS = [
-    "every storage is an ObjectStorage over a LocalHashFileDB/HashFileDB without tmp_dir (get_index = ObjectDBIndexNoop)",
+    "every storage is an ObjectStorage over a LocalHashFileDB/HashFileDB; a share of the stores has a tmp_dir: remotes "
+    "with one use a real persistent ObjectDBIndex (model: run_round_ix, index carried across groups and rounds), "
+    "the others ObjectDBIndexNoop; a tmp_dir on a cache must not change anything",
     "precondition of the passing stream: every remote group is served by one cache and that cache holds every object "
     "under the group's prefixes (collect keeps the first prefix's cache per remote); remotes start closed (C04)",
     "upload faults are injected per (destination store, object id) through put_file of the destination file system",
@@ -76,6 +81,7 @@ def faultfs():
         class FaultFS(LocalFileSystem):
             fails: set = frozenset()
             attempts: list = None
+            eacces: bool = False      # the injected failure is a PermissionError instead of EIO
 
             def put_file(self, lpath, rpath, callback=None, **kwargs):
                 parts = str(rpath).replace(os.sep, "/").split("/")
@@ -83,6 +89,8 @@ def faultfs():
                 if self.attempts is not None:
                     self.attempts.append(oid)
                 if oid in self.fails:
+                    if self.eacces:
+                        raise PermissionError(13, "injected upload failure (permission denied)")
                     raise OSError(5, "injected upload failure")
                 return super().put_file(lpath, rpath, callback=callback, **kwargs)
 
@@ -143,6 +151,9 @@ class Case:
         self.remotes = sorted({i["remote"] for _, i in self.map if i.get("remote")})
         self.caches = caches
         self.stores = caches + self.remotes + [self.fresh[c] for c in caches]
+        tmp = set(case.get("tmp") or [])
+        self.tmp = tmp | {self.fresh[c] for c in caches if c in tmp}
+        self.indexed = [r for r in self.remotes if r in self.tmp]
 
     def sid(self, s):
         return {"c": 10, "r": 20, "n": 30}[s[0]] + int(s[1:])
@@ -284,9 +295,25 @@ def run_real(ctx, C):
         path[s] = os.path.join(root, s)
         os.makedirs(path[s])
         fss[s] = faultfs()
+        fss[s].eacces = bool(case.get("eacces"))
         cls = LocalHashFileDB if case["cls"].get(s, "local") == "local" else HashFileDB
-        odbs[s] = cls(fss[s], path[s])
+        cfg = {}
+        if s in C.tmp:
+            cfg["tmp_dir"] = os.path.join(root, "tmp-" + s)
+            os.makedirs(cfg["tmp_dir"])
+        odbs[s] = cls(fss[s], path[s], **cfg)
     paths = {p: s for s, p in path.items()}
+
+    def read_index(r):
+        """{token: is_dir} of the persistent index of remote r (what get_index(odb) opens)"""
+        from dvc_data.hashfile.db import get_index
+
+        ix = get_index(odbs[r])
+        try:
+            return {C.tok.get(o, "?" + o): bool(d) for o, d in ix.index.items()}
+        finally:
+            ix.close()
+
     place, _need = C.placement()
     for c, toks in place.items():
         for t in toks:
@@ -315,6 +342,7 @@ def run_real(ctx, C):
             rd["result"] = None
         rd["attempts"] = {s: list(fss[s].attempts) for s in C.stores}
         rd["after"] = snapshot()
+        rd["index"] = {r: read_index(r) for r in C.indexed}
         for s in C.stores:
             fss[s].fails = frozenset()
         obs["rounds"].append(rd)
@@ -517,12 +545,16 @@ def model_terms(C, obs):
     co = obs.get("checkout")
     if co is not None and co.get("errors"):
         co = None  # a checkout that hit a missing object stops part-way (C09's subject); the oracle judges it
-    inp = ("{| s_idx := %s; s_parse := %s; s_stores := %s; s_sids := %s; s_rounds := %s; s_checkout := %s |}"
-           % (clist(items), parse, stores, clist([cN(C.sid(s)) for s in C.stores]), clist(rounds),
+    inp = ("{| s_idx := %s; s_parse := %s; s_stores := %s; s_sids := %s; s_ix := %s; s_rounds := %s; s_checkout := %s |}"
+           % (clist(items), parse, stores, clist([cN(C.sid(s)) for s in C.stores]),
+              clist([cN(C.sid(r)) for r in C.indexed]), clist(rounds),
               "None" if co is None else f"(Some {csmap(C, C.fmap)})"))
 
     def vlisting(lst):
         return vset([t + "/" + (chr(ctab[t]) if t in ctab and C.content[t] == b else chr(9999)) for t, b in lst.items()])
+
+    def vindex(rd):
+        return vL([vset([t + "/" + chr(1 if d else 0) for t, d in rd["index"][r].items()]) for r in C.indexed])
 
     exp_rounds = []
     for rd in obs["rounds"]:
@@ -533,10 +565,10 @@ def model_terms(C, obs):
                      for d, c, req in rd["groups"]])
         if rd["err"] is not None:
             exp_rounds.append(vL([gs, vL([vN(rd["err"][0])]), vN(0), vN(0),
-                                  vL([vlisting(rd["after"][s]) for s in C.stores])]))
+                                  vL([vlisting(rd["after"][s]) for s in C.stores]), vindex(rd)]))
         else:
             exp_rounds.append(vL([gs, vL([]), vN(rd["result"][0]), vN(rd["result"][1]),
-                                  vL([vlisting(rd["after"][s]) for s in C.stores])]))
+                                  vL([vlisting(rd["after"][s]) for s in C.stores]), vindex(rd)]))
     if co is None:
         exp_co = vL([])
     else:
@@ -617,7 +649,45 @@ def gen_base(rng):
     for _, i in smap:
         if i["remote"]:
             cls[i["remote"]] = rng.choice(["base", "local"])
-    return {"files": files, "items": items, "map": smap, "cls": cls, "pre": {}, "topup": True, "fails": []}
+    tmp = []
+    for c in sorted({i["cache"] for _, i in smap if i["cache"]}):
+        if rng.random() < 0.5:
+            tmp.append(c)
+    for r in sorted(cls):
+        if rng.random() < 0.3:
+            tmp.append(r)
+    return {"files": files, "items": items, "map": smap, "cls": cls, "pre": {}, "topup": True, "fails": [],
+            "tmp": tmp}
+
+
+def gen_shared(rng):
+    """one cache feeding two (or three) remotes; a directory goes to one remote, loose files that share contents
+    with files it lists go to another, under a prefix of their own; tmp_dir mostly on the cache only"""
+    nfile = rng.choice([3, 4])
+    files = {f"f{i}": CONTENTS[i].hex() for i in range(nfile)}
+    ftoks = list(files)
+    rps = rng.sample(RELPATHS, rng.randint(1, 3))
+    lst = [[rp, rng.choice(ftoks)] for rp in sorted(rps)]
+    dkey, lkey = rng.sample([("a",), ("b",), ("d", "e"), ("k",)], 2)
+    items = [["dir", list(dkey), lst]]
+    listed = [f for _, f in lst]
+    for j in range(rng.randint(1, 2)):
+        items.append(["file", list(lkey) + [f"l{j}"], rng.choice(listed) if rng.random() < 0.8 else rng.choice(ftoks)])
+    if rng.random() < 0.3:
+        items.append(["file", ["t"], rng.choice(ftoks)])
+    rng.shuffle(items)
+    droot = rng.random() < 0.6
+    smap = [[[] if droot else list(dkey), {"cache": "c0", "remote": "r0"}],
+            [list(lkey), {"cache": None if droot else "c0", "remote": "r1"}]]
+    if rng.random() < 0.3:
+        rng.shuffle(smap)
+    cls = {"r0": rng.choice(["base", "local"]), "r1": rng.choice(["base", "local"])}
+    tmp = ["c0"] if rng.random() < 0.8 else []
+    for r in ("r0", "r1"):
+        if rng.random() < 0.2:
+            tmp.append(r)
+    return {"files": files, "items": items, "map": smap, "cls": cls, "pre": {}, "topup": True, "fails": [],
+            "tmp": tmp}
 
 
 def usable(case, rng=None):
@@ -699,7 +769,7 @@ CORPUS = [
     {"files": {"f0": b"s".hex(), "f1": b"x".hex()},
      "items": [["dir", ["d"], [["a", "f0"], ["b", "f1"]]], ["dir", ["e"], [["z", "f0"]]]],
      "map": [[[], {"cache": "c0", "remote": "r0"}]],
-     "cls": {"r0": "base"}, "pre": {}, "topup": True, "fails": [["r0", "f0"]]},
+     "cls": {"r0": "base"}, "pre": {}, "topup": True, "fails": [["r0", "f0"]], "eacces": True},
     # cache defined at the root only, remote only below: a per-role fallback
     {"files": {"f0": b"1".hex(), "f1": b"".hex()},
      "items": [["file", ["p", "q"], "f0"], ["file", ["p", "r"], "f1"], ["file", ["f"], "f0"]],
@@ -724,6 +794,27 @@ CORPUS += [
 ]
 
 
+CORPUS += [
+    # the cache has a tmp_dir, the two remotes have none (they must stay index-free): a directory to r0, then a
+    # loose file with the content of a file that directory lists to r1
+    {"files": {"f0": b"shared\n".hex(), "f1": b"only-a\n".hex(), "f2": b"only-b\n".hex()},
+     "items": [["dir", ["a"], [["x", "f0"], ["y", "f1"]]], ["file", ["b", "f"], "f0"], ["file", ["b", "g"], "f2"]],
+     "map": [[[], {"cache": "c0", "remote": "r0"}], [["b"], {"cache": None, "remote": "r1"}]],
+     "cls": {"r0": "base", "r1": "base"}, "pre": {}, "topup": True, "fails": [], "tmp": ["c0"]},
+    # the same with a real index on r0 only, and a fault: the index must not claim what did not arrive
+    {"files": {"f0": b"shared\n".hex(), "f1": b"only-a\n".hex(), "f2": b"only-b\n".hex()},
+     "items": [["dir", ["a"], [["x", "f0"], ["y", "f1"]]], ["file", ["b", "f"], "f0"], ["file", ["b", "g"], "f2"]],
+     "map": [[[], {"cache": "c0", "remote": "r0"}], [["b"], {"cache": None, "remote": "r1"}]],
+     "cls": {"r0": "base", "r1": "local"}, "pre": {}, "topup": True, "fails": [["r0", "f1"]], "tmp": ["c0", "r0"]},
+    # both remotes indexed, the second pre-populated
+    {"files": {"f0": b"A".hex(), "f1": b"B".hex()},
+     "items": [["dir", ["d"], [["a", "f0"], ["sub/b", "f1"]]], ["file", ["f"], "f0"]],
+     "map": [[["d"], {"cache": "c0", "remote": "r0"}], [["f"], {"cache": "c0", "remote": "r1"}]],
+     "cls": {"r0": "local", "r1": "base"}, "pre": {"r1": ["f0"]}, "topup": True, "fails": [["r0", "f0"]],
+     "tmp": ["r0", "r1"]},
+]
+
+
 def features(C, obs):
     f = []
     f.append(f"prefixes:{len(C.map)}")
@@ -736,7 +827,14 @@ def features(C, obs):
         f.append("role-fallback")
     if C.case.get("pre"):
         f.append("remote-prepopulated")
+    f.append("tmp_dir:caches=%d,remotes=%d" % (sum(1 for c in C.caches if c in C.tmp), len(C.indexed)))
+    loose = {t for kind, k, t in C.items if kind == "file"}
+    listed = {fl for d in C.dirs.values() for _, fl in d}
+    if loose & listed and len(C.remotes) > 1:
+        f.append("loose-file-shares-content-with-listed-file")
     f.append(f"fails:{min(len(C.case.get('fails') or []), 4)}")
+    if C.case.get("fails"):
+        f.append("fault-kind:" + ("EACCES" if C.case.get("eacces") else "EIO"))
     if C.case.get("ffails"):
         f.append("fetch-faults")
     if not all(covered(C.map, k) for _, k, _ in C.items):
@@ -820,7 +918,7 @@ def run(ctx):
     tries = 0
     while made < nbase and tries < nbase * 30:
         tries += 1
-        base = gen_base(ctx.rng)
+        base = gen_shared(ctx.rng) if ctx.rng.random() < 0.25 else gen_base(ctx.rng)
         C = usable(base, ctx.rng)
         if C is None:
             ctx.count("generator:rejected")
@@ -839,6 +937,8 @@ def run(ctx):
         for fs in subsets:
             c = dict(base)
             c["fails"] = [list(f) for f in fs]
+            if fs and ctx.rng.random() < 0.5:
+                c["eacces"] = True
             if C.klass() is None and ctx.rng.random() < 0.15:
                 # faults in the first fetch as well: any object a fresh cache has to receive
                 CC = Case(c)
